@@ -517,8 +517,8 @@ mut(
     "C19",
     "C19.guard",
     "cdd/__main__.py",
-    "        if path.isfile(args.output_filename) and args.phase == 0:\n",
-    "        if path.isfile(args.output_filename) and args.phase == 0 and not args.emit_call:\n",
+    "        if path.isfile(args.output_filename) and not (\n",
+    "        if path.isfile(args.output_filename) and not args.emit_call and not (\n",
 )
 mut(
     "c19-gen-file-truncates",
@@ -1731,7 +1731,7 @@ mut2(
     "c19-refusal-helper-then-only-for-class-emit",
     "C19",
     "C19.guard",
-    [{"file": "cdd/__main__.py", "old": "        if args.phase == 0:  # later phases update the file written by phase 0\n", "new": "        if args.phase == 0 and args.emit_name == \"class\":\n"}],
+    [{"file": "cdd/__main__.py", "old": "        if not (args.phase > 0 and args.emit_name.startswith(\"sqlalchemy\")):\n", "new": "        if args.emit_name == \"class\" and not (args.phase > 0 and args.emit_name.startswith(\"sqlalchemy\")):\n"}],
     base="C19_4",
 )
 mut2(
